@@ -432,6 +432,7 @@ theorem C06_moved_interface_loop_counterexample :
   have := h (by decide) (exIf true) (by decide)
   exact absurd this (by decide)
 
+set_option maxRecDepth 8000 in
 /-- wireless: the access point of a `WirelessRouter` receives exactly as a `RouterInterface` does (so a wireless router is an element of
 kind `router`: `routerRx`, its power guard and its rule list apply unchanged); the airspace hands a frame to the OTHER, ENABLED interfaces OF
 THE SENDER'S FREQUENCY only (two access points on one frequency = a wire, another frequency = no wire); a disabled wireless interface
@@ -440,5 +441,7 @@ theorem C06_gen_wireless :
     Gen.FilterPower.wapReceiveIsRouterInterfaceReceive = true ∧
     Gen.FilterPower.airTransmit =
       ["self.bandwidth_load[sender_network_interface.frequency.frequency_hz] += frame.size_Mbits",
-       "for wireless_interface in self.wireless_interfaces_by_frequency.get(sender_network_interface.frequency.frequency_hz, []): ;     if wireless_interface != sender_network_interface and wireless_interface.enabled: ;         wireless_interface.receive_frame(frame)"] ∧
-    Gen.FilterPower.wirelessSendGuard = ["if not self.enabled: ;     return False"] := by decide
+       "for wireless_interface in self.wireless_interfaces_by_frequency.get(sender_network_interface.frequency.frequency_hz, []):",
+       "if wireless_interface != sender_network_interface and wireless_interface.enabled:",
+       "wireless_interface.receive_frame(frame)"] ∧
+    Gen.FilterPower.wirelessSendGuard = ["if not self.enabled:", "return False"] := by decide
